@@ -196,8 +196,12 @@ impl AsyncFileSystem for AsyncOverlayFS {
     }
 
     async fn remove_file(&self, path: &str) -> VfsResult<()> {
-        // Ensure path exists
-        self.read_path(path).await?;
+        // Ensure path exists and removing it cannot orphan anything
+        if self.read_path(path).await?.metadata().await?.file_type == VfsFileType::Directory
+            && self.read_dir(path).await?.next().await.is_some()
+        {
+            return Err(VfsErrorKind::Other("Not a file".into()).into());
+        }
         let write_path = self.write_path(path)?;
         if write_path.exists().await? {
             write_path.remove_file().await?;
@@ -209,8 +213,10 @@ impl AsyncFileSystem for AsyncOverlayFS {
     }
 
     async fn remove_dir(&self, path: &str) -> VfsResult<()> {
-        // Ensure path exists
-        self.read_path(path).await?;
+        // Ensure path exists, is a directory and has no (visible) children in any layer
+        if self.read_dir(path).await?.next().await.is_some() {
+            return Err(VfsErrorKind::Other("Directory to remove is not empty".into()).into());
+        }
         let write_path = self.write_path(path)?;
         if write_path.exists().await? {
             write_path.remove_dir().await?;
